@@ -23,7 +23,9 @@ EXPLANATION = (
     "(Obj.longname with default names, computed from the tensor _build_tensor constructs) equals the "
     "class name. R11f: the index order read back from that tensor (lower+upper for amplitudes, "
     "upper+lower otherwise) reproduces _default_idx and construction does not permute the defaults. "
-    "R11g: reduce_expr bookkeeping (R13g) and ordered substitutions at its sites.")
+    "R11g: reduce_expr bookkeeping (R13g) and ordered substitutions at its sites. R11h: pool clean-up "
+    "of LongItmdVariants visits every entry. R13d/R13h: expansion skeleton incl. fresh contracted indices per factor of a "
+    "power; fraction cancellation bookkeeping.")
 ASSUMPTIONS = [
     "the matching logic (_compare_terms, LongItmdVariants, factor_denom, cancel_orb_energy_frac) is a runtime "
     "statement and not decided",
@@ -284,7 +286,33 @@ def r11f(ctx):
                   key=f"partition {name}")
 
 
+def r11h(ctx):
+    """pool clean-up of LongItmdVariants must visit every entry"""
+    rule = "R11h"
+    for name in ("remove_used_terms", "clean_empty"):
+        fn = ctx.model.fn(FI + f"LongItmdVariants.{name}")
+        esc = [n for n in walk_fn(fn) if isinstance(n, (ast.Break, ast.Return, ast.Continue))]
+        ctx.check(rule, fn, not esc, f"{name}: every pool entry is visited",
+                  f"{name} leaves its sweep early (`{U(esc[0]) if esc else ''}` at line {esc[0].lineno if esc else 0}): entries of already "
+                  "used terms stay in the pool and the term is factored a second time", key=f"{name} exhaustive")
+    ru = ctx.model.fn(FI + "LongItmdVariants.remove_used_terms")
+    td = [a for a in walk_fn(ru) if isinstance(a, ast.Assign) and U(a.targets[0]) == "to_delete"]
+    ctx.check(rule, ru, len(td) == 1 and U(td[0].value) == "[i for i, m in enumerate(matches) if m[0] in used_terms]",
+              "every match of a used term is deleted", "selection of the matches to delete changed", key="to_delete")
+    dl = [n for n in walk_fn(ru) if isinstance(n, ast.For) and U(n.iter) == "sorted(to_delete, reverse=True)"]
+    ctx.check(rule, ru, len(dl) == 1 and U(dl[0].body[0]) == "del matches[i]", "deleted from the back", "deletion order changed", key="delete order")
+    its = sorted(U(n.iter) for n in walk_fn(ru) if isinstance(n, ast.For))
+    ctx.check(rule, ru, its == ["empty_pos", "positions.items()", "remainders.values()", "self.values()", "sorted(to_delete, reverse=True)"],
+              "all itmd indices, remainders and positions swept", f"loops {its}", key="sweep loops")
+
+
 def run(ctx):
+    if ctx.want("R11h"):
+        r11h(ctx)
+    if ctx.want("R13h"):
+        c13.r13h(ctx)
+    if ctx.want("R13d"):
+        c13.r13d(ctx)
     for r, f in (("R11a", r11a), ("R11b", r11b), ("R11c", r11c), ("R11d", r11d), ("R11e", r11e), ("R11f", r11f)):
         if ctx.want(r):
             f(ctx)
